@@ -235,7 +235,7 @@ func (r *runner) run() {
 
 func isRequestOp(op string) bool {
 	switch op {
-	case "close", "rst", "stall", "resume", "wait", "connect", "raw", "silence", "ws_ping", "midframe_close", "offence", "die":
+	case "close", "rst", "stall", "resume", "wait", "connect", "raw", "silence", "ws_ping", "midframe_close", "offence", "die", "idle_out":
 		return false
 	}
 	return true
@@ -358,6 +358,10 @@ func (r *runner) runSeq(st *Step) {
 		r.compare(st, c, out)
 		r.checkEnded(c, "client "+st.Op)
 		r.checkState(out)
+		return
+	}
+	if st.Op == "idle_out" {
+		r.idleOut(st, c)
 		return
 	}
 	if st.Op == "die" {
@@ -1349,5 +1353,67 @@ func (r *runner) taintedJoin(st *Step, c *Client) {
 	out := r.m.Depart(st.Conn)
 	r.res.Triggers["server_ended"]++
 	r.checkEnded(c, "join after an update sent outside a session")
+	r.checkState(out)
+}
+
+// idleOut: the connection stays silent for longer than the idle timeout while every other
+// client keeps sending (a ping request every third of the timeout): the server must disconnect
+// the silent one, and only it, and its departure must look like any other (C06, C08).
+func (r *runner) idleOut(st *Step, c *Client) {
+	idle := r.w.cfg.IdleTimeout
+	if idle > 10*time.Minute {
+		r.res.Skipped++
+		return
+	}
+	r.noteS0(st)
+	r.markAll()
+	r.departStep = r.stepIdx
+	mc := r.m.conn(st.Conn)
+	joined := mc.Session != nil
+	for round := 0; round < 5 && !c.Ended(); round++ {
+		r.w.sim.RunFor(idle / 3)
+		for _, oi := range r.sortedClients() {
+			o := r.clients[oi]
+			if o == c || o.Ended() || o.sentFIN || o.reset {
+				continue
+			}
+			o.Send(&hagallpb.Request{Type: hagallpb.MsgType_MSG_TYPE_PING_REQUEST, Timestamp: r.m.stamp(oi), RequestId: o.NextReqID()})
+		}
+	}
+	r.quiesce()
+	r.w.sim.Stats["fault.silence_past_idle_timeout"]++
+	if !c.Ended() {
+		r.v("C08", "idle-not-disconnected", "%s stayed silent for %v (idle timeout %v) and was not disconnected", c.Label, 5*(idle/3), idle)
+		r.v("C06", "entity-survived", "%s stayed silent for %v (idle timeout %v) and is still a member", c.Label, 5*(idle/3), idle)
+		return
+	}
+	for _, oi := range r.sortedClients() {
+		if o := r.clients[oi]; o != c && o.Ended() && !o.sentFIN && !o.reset && !r.m.conn(oi).Gone {
+			r.v("C08", "active-disconnected", "%s kept sending a ping every %v and was disconnected (%s) while %s was idling out (idle timeout %v)", o.Label, idle/3, o.DisconnectErr, c.Label, idle)
+		}
+	}
+	out := r.m.Depart(st.Conn)
+	out.Kind = "depart"
+	if joined {
+		r.res.Triggers["departure"]++
+		r.res.Triggers["departure_by_idle_timeout"]++
+	}
+	r.lastOut = out
+	for _, oi := range r.sortedClients() {
+		o := r.clients[oi]
+		if o == c || o.reset || o.Ended() {
+			continue
+		}
+		var actual []*RecvMsg
+		for _, m := range o.NonClock(o.Since()) {
+			if m.Type != 39 { // the answers to the keep-alive pings
+				actual = append(actual, m)
+			}
+		}
+		if mm := matchStream(actual, filterExp(out.Others[oi], r.dis)); mm != nil {
+			r.attributeRelay(out, o, mm)
+		}
+	}
+	r.checkEnded(c, "idle timeout")
 	r.checkState(out)
 }
